@@ -41,7 +41,8 @@ Theorem C06_source_shape :
   Gen_callbacks.http_on_error_checks_stream = true /\ Gen_callbacks.http_udp_on_connect_takes_stream = true /\
   Gen_callbacks.socks_on_connect_sets_replied = true /\ Gen_callbacks.socks_on_error_checks_replied = true /\
   Gen_callbacks.socks_on_error_checks_stream = true /\ Gen_callbacks.copy_bidi_takes_streams_first = true /\
-  Gen_callbacks.http_body_written_and_flushed = true /\ Gen_callbacks.http_head_flushed = true.
+  Gen_callbacks.http_body_written_and_flushed = true /\ Gen_callbacks.http_head_flushed = true /\
+  Gen_callbacks.http_content_length_is_body_len = true.
 Proof. repeat split; reflexivity. Qed.
 Print Assumptions C06_source_shape.
 
